@@ -18,7 +18,7 @@ PROPS = {
                     "files": ["libp2p/c16_test.go"], "test": "TestVerifC16"},
         "nontrivial_rule": "distinct (tag, model decision) pairs; every case is a distinct identifier/handler pair "
                            "drawn from the exhaustive small-range table, 64-bit boundary values or malformed identifiers",
-        "level_text": "Theorem (all names without '/', all 64-bit MAJOR.MINOR.PATCH on both sides): the modelled matcher routes /name/M.m.p to handler (hname, M'.m'.p') iff name = hname, M = M', m <= m'; other segment counts or names never match; the model is total (no panic). The model is tied to matchProtocolIDWithSemver by an exhaustive small-range table plus 64-bit boundary and malformed identifiers on every run.",
+        "level_text": "Theorem (all names without '/', all 64-bit MAJOR.MINOR.PATCH on both sides): the modelled matcher routes /name/M.m.p to handler (hname, M'.m'.p') iff name = hname, M = M', m <= m'; other segment counts or names never match; an identifier with the handler's name whose numeric version overflows the library's 64-bit components is never routed; the raw-identifier spec applies the major/minor rule over unbounded naturals in the no-match direction; the model is total (no panic). The model is tied to matchProtocolIDWithSemver by an exhaustive small-range table plus 64-bit boundary and malformed identifiers on every run.",
         "level_note": "Trusted: Lean kernel; the differential harness (in-package go test -overlay) as evidence that the Lean model equals the Go function; strings.Split / strconv.ParseUint / Masterminds semver as exercised. Lenient version spellings are outside the claim and only checked for no-panic.",
         "trusted": ["Masterminds/semver lenient spellings are outside the claim (model answers 'outside', only no-panic compared)"],
         "assumptions": ["strings.Split and strconv.ParseUint behave as modelled (compared differentially on every case)"],
